@@ -11,7 +11,7 @@ import re
 
 from ..index import Index, const_eval
 from ..layout import child_table, edge_columns, face_index_repeat
-from ..provenance import Prov
+from ..provenance import Prov, is_emptiness
 from ..report import AnalysisError, key_of
 
 LEVEL = "other"
@@ -282,7 +282,6 @@ def check(run):
 
     # ---- R6 no shortcut: every result flows from the counting computation, early exits only on emptiness
     run.rule("R6", "every return of a topological query goes through its counting computation; a return that bypasses it is allowed only under an emptiness test")
-    EMPTY = re.compile(r"(P_self\.is_empty|P_mesh\.is_empty|len\((?:P_|PHI_)[\w.]+\) == 0)( and .*)?$")
     CORE = {
         "trimesh.base:Trimesh.is_watertight": ["trimesh.graph.is_watertight(edges=P_self.edges, edges_sorted=P_self.edges_sorted)"],
         "trimesh.base:Trimesh.is_winding_consistent": ["P_self._cache['is_winding_consistent']"],
@@ -321,7 +320,7 @@ def check(run):
                 run.instance("R6", fi.where, f"{fi.qualname}: `return {val[:70]}` flows from the counting computation", True)
                 continue
             g = pq.guards(r)
-            ok = any(EMPTY.match(x) for x in g)
+            ok = any(is_emptiness(x) for x in g)
             run.instance("R6", fi.where, f"{fi.qualname}: shortcut `return {val[:40]}` under {g}", ok)
             if not ok:
                 run.violation("R6", fi.where, f"`{fi.qualname}` returns `{val[:60]}` under {g or ['no condition']} without going through its counting computation "
